@@ -27,14 +27,25 @@ func (s *Store) snapshotRevert(revertTo Snapshot) error {
 			" fileNameCurr: %s", revertToFooter.fileName, fileNameCurr)
 	}
 
+	// The file to append the footer to is found through any persisted
+	// segment, of the top-level collection or of a child collection.
+	var fref *FileRef
+	if len(revertToFooter.SegmentLocs) > 0 && revertToFooter.SegmentLocs[0].mref != nil {
+		fref = revertToFooter.SegmentLocs[0].mref.fref
+	} else {
+		fref = revertToFooter.childFileRef()
+	}
+	if fref == nil || fref.file == nil {
+		return fmt.Errorf("revert footer slocs <= 0")
+	}
+
 	persistOptions := StorePersistOptions{}
 	footer, err := s.revertToSnapshot(revertToFooter, persistOptions)
 	if err != nil {
 		return err
 	}
 
-	err = s.persistFooter(revertToFooter.SegmentLocs[0].mref.fref.file, footer,
-		persistOptions)
+	err = s.persistFooter(fref.file, footer, persistOptions)
 	if err != nil {
 		footer.DecRef()
 		return err
@@ -52,13 +63,13 @@ func (s *Store) snapshotRevert(revertTo Snapshot) error {
 
 func (s *Store) revertToSnapshot(revertToFooter *Footer, options StorePersistOptions) (
 	rv *Footer, err error) {
-	if len(revertToFooter.SegmentLocs) <= 0 {
-		return nil, fmt.Errorf("revert footer slocs <= 0")
-	}
-
-	mref := revertToFooter.SegmentLocs[0].mref
-	if mref == nil || mref.fref == nil || mref.fref.file == nil {
-		return nil, fmt.Errorf("revert footer parts nil")
+	// A collection (top-level or child) without persisted segments is
+	// fine; it is reverted to an empty collection.
+	if len(revertToFooter.SegmentLocs) > 0 {
+		mref := revertToFooter.SegmentLocs[0].mref
+		if mref == nil || mref.fref == nil || mref.fref.file == nil {
+			return nil, fmt.Errorf("revert footer parts nil")
+		}
 	}
 
 	slocs := append(SegmentLocs{}, revertToFooter.SegmentLocs...)
